@@ -19,6 +19,8 @@ from ..handlers import HandlerFacts
 from ..inifront import load_all
 from ..pools import check_factor_files_symmetric, check_factor_taggers
 from ..pyfront import Program, body_without_docstring, param_names, self_attr
+from ..guards import atoms, path_conditions
+from ..normalize import canon
 from ..selftest import Edit
 
 ID = "C10"
@@ -37,15 +39,25 @@ def check_factor_generators(prog: Program, rep: Report) -> None:
     loc = Loc(FTM, am.lineno if am else 0, "_FactorTypeMap.append_to_map")
     ok = False
     if am is not None:
+        am = canon(prog, fm, am, helpers=False)
         ps = param_names(am)
         loops = [n for n in body_without_docstring(am) if isinstance(n, ast.For) and norm(n.iter) == ps[0]]
         if len(loops) == 1:
             var = norm(loops[0].target)
-            txt = " ; ".join(norm(s) for s in loops[0].body)
-            skip = f"if {var} >= setting.number_of_nodes_per_root_node: continue" in txt.replace("\n", " ")
-            app = [c for c in ast.walk(loops[0]) if isinstance(c, ast.Call) and isinstance(c.func, ast.Attribute) and c.func.attr == "append"
-                   and isinstance(c.func.value, ast.Subscript) and norm(c.func.value.slice) == var]
-            ok = skip and len(app) == 1 and ps[0] in norm(app[0].args[0])
+
+            def files_under(c: ast.AST) -> bool:
+                """c is  <map>[var].append(..)  or  <map>.setdefault(var, []).append(..)"""
+                if not (isinstance(c, ast.Call) and isinstance(c.func, ast.Attribute) and c.func.attr == "append"):
+                    return False
+                r = c.func.value
+                if isinstance(r, ast.Subscript) and self_attr(r.value) and norm(r.slice) == var:
+                    return True
+                return isinstance(r, ast.Call) and isinstance(r.func, ast.Attribute) and r.func.attr == "setdefault" \
+                    and self_attr(r.func.value) is not None and r.args and norm(r.args[0]) == var
+            app = [c for c in ast.walk(loops[0]) if files_under(c)]
+            if len(app) == 1:
+                conds = path_conditions(loops[0].body, app[0]) or []
+                ok = ps[0] in norm(app[0].args[0]) and set(conds) == {f"{var} < setting.number_of_nodes_per_root_node"}
     rep.ob("R10.5-map-keys", ok, loc, "map[index] gets the whole index set, for every index of the first object",
            "every index set must be filed under each of its indices that belongs to the active composite object, and only those")
     # local generator
@@ -74,9 +86,10 @@ def check_factor_generators(prog: Program, rep: Report) -> None:
             skip_ok = False
             if ok_outer:
                 o = norm(outer[0].target)
-                first = outer[0].body[0] if outer[0].body else None
-                skip_ok = isinstance(first, ast.If) and norm(first.test) in (f"{o} == {a}[0]", f"{a}[0] == {o}") \
-                    and isinstance(first.body[0], ast.Continue)
+                conds = path_conditions(outer[0].body, ys[0]) or []
+                required = atoms(ast.parse(f"{o} != {a}[0]", mode="eval").body)[0]
+                allowed = {required, f"{a}[1] in self._map"}
+                skip_ok = required in conds and set(conds) <= allowed
                 n_ = "setting.number_of_nodes_per_root_node"
                 inst = f"({a}[0], target_leaf_node) if target_leaf_node < {n_} else ({o}, target_leaf_node - {n_})" in y
                 rep.ob("R10.5-nonlocal-instantiation", inst, loc, ys[0].value,
@@ -85,7 +98,21 @@ def check_factor_generators(prog: Program, rep: Report) -> None:
                    "an inter-object index set is instantiated once per other composite object, never with the active object itself")
     # the tagger de-duplicates in-states of several active leaves
     tg = prog.class_named("FactorTypeMapInStateTagger").methods.get("yield_identifiers_send_event_time")
-    ok = tg is not None and any(isinstance(n, ast.YieldFrom) and isinstance(n.value, ast.Call) and norm(n.value.func) == "set" for n in ast.walk(tg))
+    ok = False
+    if tg is not None:
+        tg = canon(prog, prog.class_named("FactorTypeMapInStateTagger"), tg, helpers=False)
+        for n in ast.walk(tg):
+            if not isinstance(n, ast.YieldFrom):
+                continue
+            v = n.value
+            if isinstance(v, ast.Call) and norm(v.func) == "set":
+                ok = True
+            elif isinstance(v, ast.SetComp):
+                ok = True
+            elif isinstance(v, ast.Name):
+                # a local that is only ever a set (created by set() / a set display and filled by add / update)
+                defs = [a.value for a in ast.walk(tg) if isinstance(a, ast.Assign) and any(isinstance(t, ast.Name) and t.id == v.id for t in a.targets)]
+                ok = bool(defs) and all((isinstance(d, ast.Call) and norm(d.func) == "set") or isinstance(d, (ast.Set, ast.SetComp)) for d in defs)
     rep.ob("R10.5-dedup-over-active-leaves", ok, Loc("jellyfysh/activator/tagger/factor_type_map_in_state_tagger.py", tg.lineno if tg else 0,
                                                    "FactorTypeMapInStateTagger.yield_identifiers_send_event_time"),
            "yield from set(...)", "when several point masses of one object are active the same index set must not be treated twice")
